@@ -30,7 +30,9 @@ ASSUMPTIONS = [
     'WEEKDAY/ISOWEEKNUM asserted for serials >= 61 only; serial 60 (the '
     'fictitious 1900-02-29) and DATE results that would have to cross it '
     'are not generated; two-digit years are not generated',
-    'YEARFRAC basis 1 across several calendar years is not asserted '
+    'YEARFRAC basis 1 is asserted within one calendar year (a leap year '
+    'only when the period holds its 29th of February) and not across '
+    'several calendar years '
     '(methods differ; the documentation promises three decimals only)',
 ]
 CASE_LIMIT_S = 30
@@ -79,6 +81,17 @@ def enumerate_cases(tier, shard=0, nshards=1):
         i += 1
         if i % nshards == shard and emit(n):
             yield {'k': 'serial', 'n': n}
+    # YEARFRAC basis 1 around the leap day of one leap year
+    for y in (1904, 2000, 2012, 2024, 2096, 2400):
+        for m1, d1 in ((1, 1), (2, 1), (2, 28), (2, 29)):
+            for m2, d2 in ((3, 1), (6, 30), (12, 31)):
+                for rev in (False, True):
+                    i += 1
+                    if i % nshards == shard:
+                        yield {'k': 'pair', 'f': 'YEARFRAC:1', 'rev': rev,
+                               'a': RD.to_serial(datetime.date(y, m1, d1)),
+                               'b': RD.to_serial(datetime.date(y, m2, d2)),
+                               'mode': 'call', 'ak': 'serial', 'lc': False}
 
 
 def _serial(d):
@@ -419,10 +432,19 @@ def _pair_case(case, res):
             # actual/actual methods (Excel's, AFB, ISDA) agree where both
             # dates lie in one non-leap year: days/365
             import calendar
-            if da.year != db.year or calendar.isleap(da.year):
+            leap = calendar.isleap(da.year)
+            if da.year == db.year and leap and da <= datetime.date(
+                    da.year, 2, 29) < db:
+                # ... and where the period holds the 29th of February of
+                # the one leap year both dates lie in (the start date
+                # counts, the end date does not): days/366
+                want = N(days / 366.0)
+                res.labels += ('actual/actual:leap-day-inside',)
+            elif da.year != db.year or leap:
                 res.labels += ('actual/actual-ambiguous:not-asserted',)
                 return res
-            want = N(days / 365.0)
+            else:
+                want = N(days / 365.0)
             tol = 5e-4
         elif basis == 2:
             want = N(days / 360.0)
